@@ -1,11 +1,11 @@
 (* Extraction of the firewall-rule model for the C03 correspondence driver.
    ExtrOcamlBasic only; no Extract Constant / Extract Inductive of our own. *)
 From Coq Require Import ExtrOcamlBasic.
-From SV Require Import Lib.Bytes Lib.ExtractBase Model.FwRules Model.FwWalk.
+From SV Require Import Lib.Bytes Lib.ExtractBase Model.FwRules Model.FwWalk Model.FwPfHook.
 Extraction "c03_model.ml" extract_anchor
   sort_desc sort_asc key_leb
   nat_cmds tproxy_cmds nft_cmds pf_rules
   print_ipt_cmd print_nft_cmd print_pf port_of
   nat_verdict nat_verdict_of tproxy_verdict tproxy_verdict_of tproxy_marked tproxy_diverted
-  nft_verdict nft_verdict_of pf_verdict pf_verdict_of
+  nft_verdict nft_verdict_of pf_verdict pf_verdict_of pf_state_verdict_of
   spec_interceptb ns_hit ns_hit32 f18_class nat_owner_okb wf_planb e_matches.
